@@ -267,7 +267,7 @@ func (g *SG) stmt(nest int, inLoop, mayReturn bool) []Stmt {
 		g.Stats["forrange_map"]++
 		g.keyVar++
 		kv := fmt.Sprintf("k%d", g.keyVar)
-		c := []string{"M64", "MIK", "H.MS", "MK8", "ME"}[r.Intn(5)]
+		c := []string{"M64", "MIK", "H.MS", "MK8", "ME", "MNil"}[r.Intn(6)]
 		id := g.id()
 		g.BagIDs[id] = true
 		// order-insensitive body: one traced key, commutative integer accumulation
@@ -317,6 +317,11 @@ func (g *SG) stmt(nest int, inLoop, mayReturn bool) []Stmt {
 		case 1:
 			return []Stmt{&If{Cond: g.cond(1), Then: []Stmt{}, HasElse: true, Else: []Stmt{g.tr()}}}
 		case 2:
+			if r.Intn(2) == 0 {
+				// an EMPTY else-if branch in front of an else that does something: when the else-if condition is the
+				// first true one, nothing runs
+				return []Stmt{&If{Cond: g.cond(1), Then: []Stmt{g.tr()}, ElseIfs: []ElseIf{{Cond: g.cond(1), Body: []Stmt{}}, {Cond: g.cond(1), Body: []Stmt{g.tr()}}}, HasElse: true, Else: []Stmt{g.tr(), g.simple()}}}
+			}
 			return []Stmt{&If{Cond: g.cond(1), Then: []Stmt{g.tr()}, ElseIfs: []ElseIf{{Cond: g.cond(1), Body: []Stmt{}}}, HasElse: true, Else: []Stmt{}}}
 		default:
 			g.keyVar++
